@@ -12,17 +12,17 @@ LEAN_FILE = 'PncProofs/C10.lean'
 NAMESPACE = 'Props.C10'
 LEAN_CONE = ['PncModel.Cal', 'PncModel.TimeDec', 'PncModel.Arr', 'PncModel.Ioapi', 'PncProofs.IoapiLemmas', 'PncProofs.C10']
 LEMMA_FILES = ['PncProofs/IoapiLemmas.lean']
-REQUIRED_THEOREMS = ['coherent_updatemeta', 'coherent_restack', 'coherent_step', 'coherent_run', 'zero_listed_counterexample']
+REQUIRED_THEOREMS = ['coherent_updatemeta', 'coherent_restack', 'coherent_create_then_updatemeta', 'create_variable_counterexample', 'copy_novars_counterexample', 'coherent_step', 'coherent_run', 'zero_listed_counterexample']
 RULE = ('IOAPI files from five sources (variable names of 2 to 16 characters; from_arrays gridded/boundary, from_arrays plus an unlisted 2-D variable, '
         'saved to disk and reopened with the ioapi reader, GRIDDESC text gridded/boundary) x sequences of 1-4 '
         'operations (copy, sliceDimensions with int / unit and strided slice / index-list windows on 1-2 dimensions, subsetVariables, renameVariable, '
         'applyAlongDimensions with reducers and length-changing callables, eval incl. 17-character and existing '
-        'names and inplace, mask, stack along TSTEP/LAY with a file or a list of files, a later part of the file stacked in front of an earlier part (the result starts where the receiver starts), interpSigma linear/conserve); after EVERY step the '
+        'names and inplace, mask, stack along TSTEP/LAY with a file or a list of files, as a last step createVariable in place / copy(variables=False) (both leave a file for the caller to complete: recorded findings, mirrored by the model); a later part of the file stacked in front of an earlier part (the result starts where the receiver starts), interpSigma linear/conserve); after EVERY step the '
         'complete metadata state (NVARS, VAR-LIST, VAR, TFLAG width and rows, variables and their dimensions, '
         'NROWS/NCOLS/NLAYS, VGLVLS, SDATE/STIME/TSTEP, XORIG/YORIG/XCELL/YCELL, dimension lengths) is compared '
         'with the Lean model and the ten equalities of the property are evaluated on the real file (oracle); '
         'non-trivial = a sequence with at least two operations of different kinds that completes; mask with coords=True and conditions that hit date/time flags; structure-only copies; level edges decreasing or increasing; griddesc files with a CF time variable whose time axis is reduced / subsampled')
-ASSUMPTIONS = ['negative strides on TSTEP (files running backwards in time) are not generated', 'variable data is outside this model (C01-C06); all VAR columns of TFLAG are equal (checked on every observed state)',
+ASSUMPTIONS = ['negative strides on TSTEP (files running backwards in time) are not generated; a later part stacked in front of an earlier part is generated as a last step only', 'variable data is outside this model (C01-C06); all VAR columns of TFLAG are equal (checked on every observed state)',
                'VGLVLS and origins are float32/float64 in the code and rationals in the model: compared within 1e-6 relative',
                'eval is exercised with single assignments (the order in which several new names are appended follows set iteration order)',
                'TSTEP > 0 files only (time-independent files are not generated)']
@@ -53,13 +53,21 @@ def _src(rng):
 
 def _recipe(rng):
     k = rng.choice(['copy', 'slice', 'slice', 'slice2', 'subset', 'rename', 'apply', 'apply', 'eval', 'mask', 'stack',
-                    'interp', 'slicerc', 'slicet', 'restack'])
+                    'interp', 'slicerc', 'slicet'])
     return [k] + [rng.randrange(1 << 20) for _ in range(6)]
 
 
 def gen(rng, tier):
     n = 150 if tier == 'quick' else 4000
     out = [dict(src=_src(rng), recipes=[_recipe(rng) for _ in range(rng.randint(1, 4))]) for _ in range(n)]
+    for c in out:
+        # a last step after which the file no longer runs forward in time (what later steps would make of its negative
+        # time step is outside the domain): a later part stacked in front of an earlier part
+        if rng.random() < 0.1:
+            c['recipes'].append(['restack'] + [rng.randrange(1 << 20) for _ in range(6)])
+        elif rng.random() < 0.12:
+            # a last step that leaves the file for its caller to complete: createVariable in place, a copy without variables
+            c['recipes'].append([rng.choice(['create', 'copynv'])] + [rng.randrange(1 << 20) for _ in range(6)])
     out.append(witnesses()[0][1])
     # files that carry a CF time variable (getTimes prefers it) whose time axis is changed without touching SDATE/STIME
     for fn in ('mean', 'every2', 'rev', 'first2'):
@@ -225,6 +233,10 @@ def resolve(recipe, f):
         return ['s', lo, hi]
     if k == 'copy':
         return ['copy', r[0] % 3 == 0]
+    if k == 'create':
+        return ['create', ['NEWC', 'N234567890123456'][r[0] % 2]]
+    if k == 'copynv':
+        return ['copynv']
     if k == 'slicet':
         # index lists along TSTEP: unevenly spaced, increasing (the selected TFLAG rows are kept, not regenerated)
         L = dims.get('TSTEP', 0)
@@ -292,6 +304,13 @@ def apply_op(f, op):
     k = op[0]
     if k == 'copy':
         return f.copy(data=False) if (len(op) > 1 and op[1]) else f.copy()      # a structure-only copy keeps coherent metadata too
+    if k == 'create':
+        std = ('TSTEP', 'LAY', 'PERIM') if 'PERIM' in f.dimensions else ('TSTEP', 'LAY', 'ROW', 'COL')
+        v = f.createVariable(op[1], 'f', std)          # in place, standard dimensions of the file type
+        v[...] = 1
+        return f
+    if k == 'copynv':
+        return f.copy(variables=False)
     if k == 'slice':
         kw = {}
         for d, w in op[1]:
@@ -374,6 +393,8 @@ def tok(op):
         return 'eval@%s@%s@%d' % (op[1], op[2], 1 if op[3] else 0)
     if k == 'stack':
         return 'stack@' + op[1]
+    if k == 'create':
+        return 'create@' + op[1]
     if k == 'restack':
         return 'restack@%d' % op[1]
     if k == 'interp':
@@ -434,12 +455,44 @@ def oracle(case, res):
     return None
 
 
+KEY_CREATE = 'C10/createVariable-in-place/VAR-dimension-stale'
+KEY_COPYNV = 'C10/copy-without-variables/stale-VAR-LIST'
+
+
+def _parts(failure):
+    return [t.strip() for t in failure.split(': ', 1)[1].split(';')] if ': ' in failure else []
+
+
 def classify(case, failure, model_out):
+    import re
+    # the two calls that leave a file for the caller to complete (recorded findings): exactly the stale counts they leave
+    m = re.match(r"after step (\d+) \['(create|copynv)'", failure)
+    if m:
+        parts = _parts(failure)
+        if m.group(2) == 'create':
+            ok = parts and all(re.fullmatch(r'VAR dimension (\d+) != (\d+) listed variables', t) or
+                               re.fullmatch(r'TFLAG second axis (\d+) != (\d+) listed variables', t) for t in parts)
+            nums = [re.findall(r'\d+', t) for t in parts]
+            if ok and all(int(a) + 1 == int(b) or (int(a) == 1 and int(b) == 1) for a, b in nums):
+                return KEY_CREATE
+        else:
+            ok = parts and all(re.fullmatch(r'NVARS 0 != (\d+) listed variables', t) or
+                               re.fullmatch(r'listed variable \S+ does not exist', t) for t in parts)
+            if ok and sum(1 for t in parts if t.startswith('listed variable')) == int(re.findall(r'\d+', parts[0])[1]):
+                return KEY_COPYNV
+        return None
     # the recorded finding: a file with no listed variable keeps VAR (and TFLAG's second axis) at length 1
     if 'NVARS' not in failure and 'VAR dimension 1 != 0 listed' in failure and 'TFLAG second axis 1 != 0 listed' in failure \
             and failure.count(';') == 1:
         return KEY_ZERO
     return None
+
+
+def classify_full(case, failure, model_out, res, diff):
+    # a listed finding is mirrored by the model: it is that finding only while the implementation still agrees with the model
+    if diff:
+        return None
+    return classify(case, failure, model_out)
 
 
 def nontrivial(case, res):
@@ -450,7 +503,9 @@ def nontrivial(case, res):
 def witnesses():
     src = dict(kind='arrays', nt=2, nl=2, nr=2, nc=2, nv=1, sdate=2019365, stime=220000, tstep=10000, lv=[64, 32, 16, 0],
                withcf=False)
-    return [(KEY_ZERO, dict(src=src, recipes=[], ops=[['eval', 'X' * 17, 'A0', False]]))]
+    return [(KEY_ZERO, dict(src=src, recipes=[], ops=[['eval', 'X' * 17, 'A0', False]])),
+            (KEY_CREATE, dict(src=src, recipes=[], ops=[['create', 'NEWC']])),
+            (KEY_COPYNV, dict(src=src, recipes=[], ops=[['copynv']]))]
 
 
 def distribution(recs):
